@@ -8,6 +8,9 @@
    (replicated) deepest component, under replica-like naming schemes (replicas gen10, gen11 of `gen1` next to `gen`; `gen12`
    next to `gen1`; replicas of `gen` next to `gen7`), replicated or not; perturbations ChangeSiblingExecutable/-Literal move
    the bystander's hash only, ChangeExecutable of the replicated component moves the hashes of its replicas.
+   "content" base worlds: the consumer reads its own input file and a produced file whose contents range over all pairs of
+   RELATED contents (base text, proper prefix, NUL padded, trailing newline, > 4 KiB, > 64 KiB, empty; rendered to real bytes),
+   with the own reference shorter or longer than the other (order of hashing); distinct ids are distinct identities.
 2. spec -> code: every pair (a, b, aspect) emitted by TLC is rendered to two real packages, instantiated in two
    different directories (different instance names, time stamps, file times), the consumed files are written with
    the contents the worlds give, and ComponentSpecification.memoization_hash / memoization_hash_fuzzy of EVERY
@@ -64,10 +67,12 @@ IMG = {"img1": "registry.example.com/tools/img:1", "img2": "registry.example.com
 TIERS = {
     "quick": dict(MaxChain=3, OwnShapes=["none", "input-ref", "data-copy", "appdep-ref"],
                   UpShapes=["pfile-ref", "pfile-copy", "pdir-ref"], Up2Shapes=["pfile-ref", "pdir-ref"],
-                  ImageShapes=["local", "k8s-img1"], MaxFeatures=1, NamingChain=2, nproc=6),
+                  ImageShapes=["local", "k8s-img1"], MaxFeatures=1, NamingChain=2, nproc=6,
+                  ContentIds=["B", "B.prefix", "B.nul", "B.big64k", "empty"]),
     "thorough": dict(MaxChain=3, OwnShapes=["none", "input-ref", "input-copy", "data-ref", "data-copy", "appdep-ref", "appdep-link"],
                      UpShapes=["pfile-ref", "pfile-copy", "pfile-output", "pdir-ref"], Up2Shapes=["pfile-ref", "pdir-ref"],
-                     ImageShapes=["local", "lsf-img1", "k8s-img1"], MaxFeatures=2, NamingChain=3, nproc=8),
+                     ImageShapes=["local", "lsf-img1", "k8s-img1"], MaxFeatures=2, NamingChain=3, nproc=8,
+                     ContentIds=["B", "B.prefix", "B.nul", "B.nl", "B.big4k", "B.big64k", "empty"]),
 }
 SCHEMES = ["plain", "renamed", "affix", "affix2", "digits", "digitmid", "repldigit", "repldigit2", "replsib"]
 NAMING = ["repldigit", "repldigit2", "replsib"]
@@ -79,9 +84,9 @@ def _set(xs):
 
 def write_cfg(path, t, emit, invariants):
     body = "CONSTANTS\n  MaxChain = %d\n  OwnShapes = %s\n  UpShapes = %s\n  Up2Shapes = %s\n  ImageShapes = %s\n" \
-           "  MaxFeatures = %d\n  Schemes = %s\n  NamingSchemes = %s\n  NamingChain = %d\n  Emit = %s\nSPECIFICATION Spec\n" % (
+           "  MaxFeatures = %d\n  Schemes = %s\n  NamingSchemes = %s\n  NamingChain = %d\n  ContentIds = %s\n  Emit = %s\nSPECIFICATION Spec\n" % (
                t["MaxChain"], _set(t["OwnShapes"]), _set(t["UpShapes"]), _set(t["Up2Shapes"]), _set(t["ImageShapes"]),
-               t["MaxFeatures"], _set(SCHEMES), _set(NAMING), t["NamingChain"], "TRUE" if emit else "FALSE")
+               t["MaxFeatures"], _set(SCHEMES), _set(NAMING), t["NamingChain"], _set(t["ContentIds"]), "TRUE" if emit else "FALSE")
     body += "".join("INVARIANT %s\n" % i for i in invariants) + "CHECK_DEADLOCK FALSE\n"
     tmp = "%s.%d.tmp" % (path, os.getpid())          # atomic: a concurrent run of the same tier may be reading it
     with open(tmp, "w") as f:
@@ -167,8 +172,30 @@ def render(w, appdir):
     return doc
 
 
+BASE_TEXT = b"content of the base file\nsecond line: base base base\nthird line\n"
+
+
+def content_bytes(cid):
+    """content id of the spec -> bytes.  The related ids stand in prefix / padding / block-size relations (Memo.tla)."""
+    if cid == "B":
+        return BASE_TEXT
+    if cid == "B.prefix":
+        return BASE_TEXT[:29]
+    if cid == "B.nul":
+        return BASE_TEXT + b"\0" * 64
+    if cid == "B.nl":
+        return BASE_TEXT + b"\n"
+    if cid == "B.big4k":
+        return (BASE_TEXT * (5000 // len(BASE_TEXT) + 1))[:5000]
+    if cid == "B.big64k":
+        return (BASE_TEXT * (70000 // len(BASE_TEXT) + 1))[:70000]
+    if cid == "empty":
+        return b""
+    return ("content of %s\nsecond line %s\n" % (cid, cid * 3)).encode()
+
+
 def content_text(cid):
-    return "content of %s\nsecond line %s\n" % (cid, cid * 3)
+    return content_bytes(cid).decode("latin-1")
 
 
 class Built:
@@ -190,8 +217,8 @@ class Built:
             if own["kind"] == "input":
                 p = os.path.join(loc, "src-inputs", os.path.basename(rel))
                 os.makedirs(os.path.dirname(p), exist_ok=True)
-                with open(p, "w") as f:
-                    f.write(text)
+                with open(p, "wb") as f:
+                    f.write(content_bytes(own["content"]))
                 inputs.append(p)
             elif own["kind"] == "data":
                 extra[rel] = text
@@ -233,8 +260,8 @@ class Built:
                 for nd in self.nodes[i + 1]:
                     wd = self.exp.graph.nodes[nd]["componentInstance"].directory
                     p = os.path.join(wd, "%s.txt" % FNAME[up["fname"]])
-                    with open(p, "w") as f:
-                        f.write(content_text(up["content"]))
+                    with open(p, "wb") as f:
+                        f.write(content_bytes(up["content"]))
                     os.utime(p, (t, t))
 
     def hashes(self, i):
@@ -269,6 +296,8 @@ def aspect_name(pair):
         f = "own" if k == "ownMethod" else "up"
         at = pair["asp"]["at"] - 1
         return "%s=%s->%s" % (k, pair["a"]["c"][at][f]["method"], pair["b"]["c"][at][f]["method"])
+    if k in ("ownContent", "upContent") and pair["a"]["focus"] == "content":
+        return "%s->%s" % (k, pair["b"]["c"][0]["own" if k == "ownContent" else "up"]["content"])
     if k == "image":
         at = pair["asp"]["at"] - 1
         return "image=%s/%s->%s/%s" % (pair["a"]["c"][at]["backend"], pair["a"]["c"][at]["image"],
@@ -289,7 +318,7 @@ def position(pair, i):
         pos = "self"
     else:
         pos = "upstream%d" % (at - i) if at > i else "downstream"
-    if pair["a"]["sib"]["present"]:        # naming base world: the class of the input includes the naming relation
+    if pair["a"]["sib"]["present"] or pair["a"]["focus"] == "content":   # the class of the input includes the naming / content relation
         pos += "@" + base_class(pair["a"], i)
     return pos
 
@@ -351,6 +380,10 @@ def compare_sibling(chk, pair, ha, hb, replay):
 
 def base_class(w, i):
     c = w["c"][i - 1]
+    if w["focus"] == "content":
+        c1 = w["c"][0]
+        return "contents(own=%s,produced=%s,%s)" % (c1["own"]["content"], c1["up"]["content"],
+                                                   "own-reference-longer" if c1["own"]["fname"] == "g1" else "own-reference-shorter")
     if w["sib"]["present"]:
         return "naming=%s%s" % (w["where"]["scheme"], ",replicated" if w["where"]["replicated"] else "")
     return "own=%s-%s,up=%s-%s,%s" % (c["own"]["kind"], c["own"]["method"], c["up"]["kind"], c["up"]["method"], c["backend"])
